@@ -34,6 +34,36 @@ class Sym(str):
         return str.__getitem__(self, i)
 
 
+# field names of pwd.struct_passwd / grp.struct_group, by tuple index
+PW_FIELDS = ("pw_name", "pw_passwd", "pw_uid", "pw_gid", "pw_gecos", "pw_dir", "pw_shell")
+GR_FIELDS = ("gr_name", "gr_passwd", "gr_gid", "gr_mem")
+
+
+class Record(Sym):
+    """Result of pwd.getpwnam / grp.getgrnam: indexable like the real struct
+    sequence and with its named fields; field i renders as <call>[i]."""
+    _fields = ()
+
+    def __getattr__(self, name):
+        if name in type(self)._fields:
+            return self[type(self)._fields.index(name)]
+        raise AttributeError(name)
+
+    def __iter__(self):
+        return iter([self[i] for i in range(len(type(self)._fields))])
+
+    def __len__(self):
+        return len(type(self)._fields)
+
+
+class PwRecord(Record):
+    _fields = PW_FIELDS
+
+
+class GrRecord(Record):
+    _fields = GR_FIELDS
+
+
 class Injected:
     pass
 
@@ -211,8 +241,13 @@ def run_case(drv, tmp, entry, opts, fail, fork_parent):
         args = list(a) + list(k.values())
         return rec.call("open", args, lambda: FakeObj(rec, "open(%s)" % ",".join(rec.render(x) for x in args), "fd"))
 
-    fake_pwd = types.SimpleNamespace(getpwnam=lambda name: rec.call("pwd.getpwnam", [name]))
-    fake_grp = types.SimpleNamespace(getgrnam=lambda name: rec.call("grp.getgrnam", [name]))
+    def lookup(fn, cls_):
+        def f(*a, **k):
+            args = list(a) + list(k.values())
+            return rec.call(fn, args, lambda: cls_("%s(%s)" % (fn, ",".join(rec.render(x) for x in args))))
+        return f
+    fake_pwd = types.SimpleNamespace(getpwnam=lookup("pwd.getpwnam", PwRecord), getpwuid=lookup("pwd.getpwuid", PwRecord))
+    fake_grp = types.SimpleNamespace(getgrnam=lookup("grp.getgrnam", GrRecord), getgrgid=lookup("grp.getgrgid", GrRecord))
 
     os_proxy = ModProxy(rec, os, "os", OS_PASS,
                         results={"fork": (lambda: 4242 if fork_parent else 0), "getpid": lambda: 12345,
